@@ -1,16 +1,29 @@
 ------------------------------ MODULE TileCache -----------------------------
 (* C20 -- a tile is downloaded only if it is not already in the cache dir.    *)
+(* A request is get_tile(t): if the tile's file is in the cache directory it   *)
+(* is read from there, otherwise it is transferred and unpacked first.  A      *)
+(* transfer may break off (FailingRequest): the caller gets the error, the     *)
+(* tile is NOT in the cache afterwards (whatever partial file the transfer     *)
+(* left behind), and a later request transfers it again.                       *)
 EXTENDS Integers, Sequences, FiniteSets, TLC, Json
 CONSTANTS Tiles, MaxLen
 VARIABLES cache, hist, downloads
 Init == cache \in SUBSET Tiles /\ hist = <<>> /\ downloads = <<>>       \* warm or cold start
+\* hist entries: <<tile, "ok" | "fail">>;  downloads: every transfer that was STARTED, in order
 Request(t) == /\ Len(hist) < MaxLen
-              /\ hist' = Append(hist, t)
+              /\ hist' = Append(hist, <<t, "ok">>)
               /\ downloads' = IF t \in cache THEN downloads ELSE Append(downloads, t)
               /\ cache' = cache \cup {t}
-Next == \E t \in Tiles : Request(t)
+FailingRequest(t) == /\ Len(hist) < MaxLen /\ t \notin cache
+                     /\ hist' = Append(hist, <<t, "fail">>)
+                     /\ downloads' = Append(downloads, t)
+                     /\ cache' = cache
+Next == \E t \in Tiles : Request(t) \/ FailingRequest(t)
 Spec == Init /\ [][Next]_<<cache, hist, downloads>>
-\* every tile is downloaded at most once, and never when it was there from the start
-AtMostOnce == \A i, j \in 1..Len(downloads) : downloads[i] = downloads[j] => i = j
+\* a transfer is started only for a tile that is not in the cache:
+\* number of transfers of t = number of failing requests for t + (1 if a successful request found it missing)
+Transfers(t) == Cardinality({i \in 1..Len(downloads) : downloads[i] = t})
+Fails(t) == Cardinality({i \in 1..Len(hist) : hist[i] = <<t, "fail">>})
+AtMostOnce == \A t \in Tiles : Transfers(t) <= Fails(t) + 1
 Emit == Len(hist) < MaxLen \/ PrintT(<<"CASE", ToJson([hist |-> hist, downloads |-> downloads, final |-> cache])>>)
 =============================================================================
